@@ -36,6 +36,9 @@ def run(ctx):
     try:
         m = C06.build_machine(ctx, prog, explore=False)
         C06.check_corpus(ctx, prog, m)
+        # file round trip: Xdl::read feeds the parser in chunks, so the value decoded from a file equals the one decoded from
+        # memory only if no transition looks at a neighbouring byte of the chunk (a number's sign at the end of a chunk)
+        C06.check_chunks(ctx, prog, m)
     except automaton.Stuck as ex:
         ctx.undecided('C06.docs', 'asl::XdlParser::parse', 'parse:every document of the corpus has an accepting run', '/repo/src/Xdl.cpp:0', 'the decoder loop uses a construct the abstract interpreter cannot represent: %s' % ex)
     return __doc__.split('\n\n', 1)[1]
